@@ -82,6 +82,8 @@ let run_init c =
   done;
   { !s with ths = List.map (fun (t, ops) -> (nat_of_int t, { prog = List.map parse_op ops; tpc = Idle; results = [] })) c.progs }
 
+let gibad = ref 0
+let check_gi = Array.length Sys.argv > 4 && Sys.argv.(4) = "gi"
 let () =
   let cases = Hashtbl.create 64 in
   let ic = open_in Sys.argv.(1) in
@@ -141,6 +143,7 @@ let () =
             | EScanEnd -> "end") evs in
           let ev = if ev = [] then "-" else String.concat "," ev in
           let en = String.concat "," (List.filter_map (fun t -> if c_enabled c.order st' (nat_of_int t) then Some (string_of_int t) else None) (tids c)) in
+          if check_gi && not (c_gi_full_b c.order st') then incr gibad;
           if c.dumpsteps then Printf.fprintf oc "STEP %d acq=%s ev=%s en=%s | %s\n" w a ev en (state st' (tids c))
           else Printf.fprintf oc "STEP %d acq=%s ev=%s en=%s\n" w a ev en
         | Blocked -> dead := true; Printf.fprintf oc "STEP %d MODEL-BLOCKED\n" w
@@ -168,4 +171,5 @@ let () =
       else if starts "ENUM-TRUNCATED" then output_string oc (line ^ "\n")
     | _ -> ()
   done with End_of_file -> ());
-  close_out oc
+  close_out oc;
+  Printf.printf "model_gi_failures %d\n" !gibad
